@@ -81,6 +81,14 @@ func fastjsonGuarded(info *types.Info, s *errflow.Site) (bool, string) {
 	}
 	recv := core.ExprStr(sel.X)
 	isTypeCall := func(e ast.Expr) bool {
+		// a local defined once as recv.Type() names that call's value
+		if id, ok := core.Unparen(e).(*ast.Ident); ok && len(s.Stack) > 0 {
+			if obj, ok := info.Uses[id].(*types.Var); ok {
+				if def := singleDef(info, s.Stack[0], obj); def != nil {
+					e = def
+				}
+			}
+		}
 		c, ok := core.Unparen(e).(*ast.CallExpr)
 		if !ok {
 			return false
